@@ -68,14 +68,18 @@ Proof.
   - (* custody send *) destruct (dec _ _); [exact D|]. simpl snd. destruct (flag _ _); exact D.
   - (* approve *)
     match goal with |- log_distinct (snd (_, if ?c then _ else _)) => destruct c eqn:Ec end; simpl snd; [|exact D].
-    intros f' t' h' R. simpl in R. simpl l_appr. unfold count3. simpl.
+    match goal with |- log_distinct (if ?c then _ else _) => destruct c end.
+    { (* the same person under another address: nothing is recorded, the account leaves the guarantee *)
+      intros f' t' h' R. simpl l_appr. apply D. unfold rotated in *. simpl in R.
+      apply orb_false_elim in R. destruct R as [R1 R2]. apply orb_false_elim in R2. destruct R2 as [_ R2]. rewrite R1, R2. reflexivity. }
+    intros f' t' h' R. assert (R0 : rotated lg t' = false) by exact R. simpl l_appr. unfold count3. simpl.
     destruct ((f' =? f) && (t' =? t) && String.eqb h' (to_lower h)) eqn:Em.
     + apply andb_prop in Em. destruct Em as [Em E3]. apply andb_prop in Em. destruct Em as [E1 E2].
       apply String.eqb_eq in E3. assert (f' = f) by lia. assert (t' = t) by lia. subst.
       apply andb_prop in Ec. destruct Ec as [Ec _]. apply andb_prop in Ec. destruct Ec as [_ Ec].
       apply negb_true_iff in Ec. apply orb_false_elim in Ec. destruct Ec as [Ec _].
       simpl List.length. fold (count3 f t (to_lower h) (l_appr lg)). rewrite (count3_in3_false _ _ _ _ Ec). lia.
-    + exact (D f' t' h' R).
+    + exact (D f' t' h' R0).
   - (* decline *)
     match goal with |- log_distinct (snd (_, if ?c then _ else _)) => destruct c end; simpl snd; exact D.
   - (* confirm *)
@@ -84,9 +88,8 @@ Proof.
   - destruct (dec _ _); exact D.
   - destruct (dec _ _); exact D.
   - (* rotation: the two accounts leave the guarantee; the copies are filed under the new one *)
-    simpl snd. intros f' t' h' R. unfold rotated in R. simpl in R.
-    apply orb_false_elim in R. destruct R as [R1 R]. apply orb_false_elim in R. destruct R as [R2 R].
-    simpl l_appr. rewrite count3_ren_other by lia. exact (D f' t' h' R).
+    simpl snd. intros f' t' h' R. destruct (rotated_cons2 _ _ _ _ _ _ _ _ _ R) as (H1 & H2 & R0).
+    simpl l_appr. rewrite count3_ren_other by lia. exact (D f' t' h' R0).
 Qed.
 
 Lemma log_distinct_steps : forall tr n lg id0 a0 s, log_distinct lg ->
@@ -121,6 +124,7 @@ Proof.
     destruct o0; try (left; exact Hl); unfold op_clauses in Hl; cbv zeta in Hl.
     + destruct (dec _ _); [left; exact Hl|]. simpl snd in Hl. destruct (flag _ _); left; exact Hl.
     + match type of Hl with In _ (l_appr (snd (_, if ?c then _ else _))) => destruct c eqn:Ec end; simpl snd in Hl; [|left; exact Hl].
+      match type of Hl with In _ (l_appr (if ?c then _ else _)) => destruct c end; [left; exact Hl|].
       simpl l_appr in Hl. destruct Hl as [<-|Hl]; [|left; exact Hl].
       right. apply andb_prop in Ec. destruct Ec as [Ec Ev]. apply andb_prop in Ec. destruct Ec as [Ei _].
       exists lg, (if id =? id0 then a0 else s), s, post, h. split; [left; reflexivity|]. repeat split; assumption.
@@ -138,13 +142,15 @@ Proof.
         destruct (code =? 0); [|apply IH; exact T]. apply IH.
         unfold step_clauses. simpl snd. destruct o0; try exact T; unfold op_clauses; cbv zeta.
         - destruct (dec _ _); [exact T|]. simpl snd. destruct (flag _ _); exact T.
-        - match goal with |- rotated (snd (_, if ?c then _ else _)) _ = true => destruct c end; exact T.
+        - match goal with |- rotated (snd (_, if ?c then _ else _)) _ = true => destruct c end; simpl snd; [|exact T].
+          match goal with |- rotated (if ?c then _ else _) _ = true => destruct c end; [|exact T].
+          unfold rotated in *. simpl. apply orb_prop in T. destruct T as [T|T]; rewrite T; [reflexivity|]. rewrite !orb_true_r. reflexivity.
         - match goal with |- rotated (snd (_, if ?c then _ else _)) _ = true => destruct c end; exact T.
         - destruct (pending s' t (to_lower h)); simpl snd; [|exact T]. match goal with |- rotated (if ?c then _ else _) _ = true => destruct c end; exact T.
         - destruct (dec _ _); exact T.
         - destruct (dec _ _); exact T.
-        - simpl snd. unfold rotated in *. simpl. rewrite T. rewrite !orb_true_r. reflexivity. }
-      rewrite G in R; [discriminate|]. unfold step_clauses, op_clauses. simpl snd. unfold rotated. simpl. rewrite Z.eqb_refl, orb_true_r. reflexivity.
+        - simpl snd. unfold rotated in *. simpl. apply orb_prop in T. destruct T as [T|T]; rewrite T; rewrite ?orb_true_r; reflexivity. }
+      rewrite G in R; [discriminate|]. unfold step_clauses, op_clauses. simpl snd. unfold rotated. simpl. rewrite Z.eqb_refl. rewrite ?orb_true_r. reflexivity.
   - right. destruct e as [[f t] h]. destruct Hw as (lg' & a & s1 & s2 & hraw & Hs & Hw). exists lg', a, s1, s2, hraw. split; [right; exact Hs|exact Hw].
 Qed.
 
@@ -193,14 +199,17 @@ Proof. intros. unfold step_clauses. simpl fst. apply in_or_app. right. apply in_
 (* the log after an accepted approval / confirmation, spelled out *)
 Definition approve_log (lg : log) (s1 s2 : state) (f t : Z) (hraw : string) : log :=
   if is_custodian (getA s1 t) f && negb (in3 f t (to_lower hraw) (l_appr lg) || in3 f t (to_lower hraw) (l_decl lg)) && voted s1 s2
-  then mkLog ((f, t, to_lower hraw) :: l_appr lg) (l_decl lg) (l_conf lg) (l_rot lg) (l_req lg) else lg.
+  then (if negb (in3 f t (to_lower hraw) (l_appr lg) || in3 f t (to_lower hraw) (l_decl lg)) && same_person lg f t (to_lower hraw)
+        then mkLog (l_appr lg) (l_decl lg) (l_conf lg) (l_rot lg) (l_req lg) (l_alias lg) (t :: l_same lg)
+        else mkLog ((f, t, to_lower hraw) :: l_appr lg) (l_decl lg) (l_conf lg) (l_rot lg) (l_req lg) (l_alias lg) (l_same lg))
+  else lg.
 Lemma approve_log_eq : forall n lg a s1 s2 f t hraw, snd (op_clauses n lg a s1 s2 (OApprove f t hraw)) = approve_log lg s1 s2 f t hraw.
 Proof. reflexivity. Qed.
 
 (* RELEASE AT AN APPROVAL: the share of distinct listed custodians, and the password *)
 Theorem release_at_approval : forall bals ops lg a s1 s2 f t hraw tx,
   In (lg, a, s1, s2, OApprove f t hraw) (run_steps bals ops) ->
-  released s1 s2 t (to_lower hraw) = Some tx -> rotated lg t = false ->
+  released s1 s2 t (to_lower hraw) = Some tx -> rotated (approve_log lg s1 s2 f t hraw) t = false ->
   let lg1 := approve_log lg s1 s2 f t hraw in
   let T := getA s1 t in
   (guarded T = true -> 0 < n_cust T -> forall st, a_set T = Some st ->
@@ -217,8 +226,9 @@ Proof.
     - unfold lg1. rewrite <- (approve_log_eq (List.length bals) lg a). unfold step_clauses in D1. exact (proj2 (D1 _ _ _ _ _ Hs)). }
   assert (Rc : forall x, In x (release_clauses lg1 s1 t (to_lower hraw) tx (t_votes tx + 1) "approve") ->
                In x (fst (op_clauses (List.length bals) lg a s1 s2 (OApprove f t hraw)))).
-  { intros x Hx. unfold op_clauses. cbv zeta. rewrite Ht, Hr. fold (approve_log lg s1 s2 f t hraw). fold lg1. simpl fst.
-    apply in_or_app. right. apply in_or_app. right. apply in_or_app. right. apply in_or_app. right. exact Hx. }
+  { intros x Hx. unfold op_clauses. cbv zeta. rewrite Hr. fold (approve_log lg s1 s2 f t hraw). fold lg1.
+    rewrite (vote_kind_plain lg1 t "approve" Ht). simpl fst.
+    apply in_or_app. right. apply in_or_app. right. apply in_or_app. right. apply in_or_app. right. apply in_or_app. right. exact Hx. }
   split; [|split; [|exact D]].
   - intros Hg Hn st Hst. destruct (Z_lt_le_dec (count_appr t (to_lower hraw) (l_appr lg1) * 100) (s_mode st * n_cust T)) as [Hlt|]; [|assumption].
     exfalso. set (X := if (t_votes tx + 1) * 100 <? s_mode st * n_cust T then "undercount"%string else "nongenuine"%string).
@@ -253,12 +263,12 @@ Proof.
   - destruct (String.eqb p (t_pw tx) || String.eqb ph (t_pw tx)) eqn:Eg.
     + apply orb_prop in Eg. destruct Eg as [Eg|Eg]; apply String.eqb_eq in Eg; auto.
     + exfalso. assert (Hc : In (cl3 "password" "confirm" "wrong") (fst (op_clauses (List.length bals) lg a s1 s2 (OConfirm f t hraw p ph)))).
-      { unfold op_clauses. cbv zeta. rewrite Ht, Hpend, Eg. simpl. left. reflexivity. }
+      { unfold op_clauses. cbv zeta. rewrite (vote_kind_plain lg t "confirm" Ht), Hpend, Eg. simpl. left. reflexivity. }
       specialize (Res _ Hc). discriminate.
   - intros Hg Hn st Hst. destruct (Z_lt_le_dec (count_appr t (to_lower hraw) (l_appr lg) * 100) (s_mode st * n_cust T)) as [Hlt|]; [|assumption].
     exfalso. set (X := if t_votes tx * 100 <? s_mode st * n_cust T then "undercount"%string else "nongenuine"%string).
     assert (Hc : In (cl3 "threshold" "confirm" X) (fst (op_clauses (List.length bals) lg a s1 s2 (OConfirm f t hraw p ph)))).
-    { unfold op_clauses. cbv zeta. rewrite Ht, Hpend, Hr. simpl fst. apply in_or_app. right. apply in_or_app. right.
+    { unfold op_clauses. cbv zeta. rewrite (vote_kind_plain lg t "confirm" Ht), Hpend, Hr. simpl fst. apply in_or_app. right. apply in_or_app. right.
       unfold release_clauses. cbv zeta. apply in_or_app. left. fold T. rewrite Hg. assert (Y : 0 <? n_cust T = true) by lia. rewrite Y. simpl andb. cbv iota.
       rewrite Hst.
       assert (Z : count_appr t (to_lower hraw) (l_appr lg) * 100 <? s_mode st * n_cust T = true) by lia.
@@ -280,23 +290,27 @@ Proof.
   split.
   - destruct (paid_without_release s1 s2 t (to_lower hraw)) eqn:Ep; [exfalso|reflexivity].
     destruct Ho as [[f ->]|[[f ->]|(f & p & ph & ->)]].
-    + assert (Hc : In (cl "payout_without_release" (if rotated lg t then "approve_rotated" else "approve")) (fst (op_clauses (List.length bals) lg a s1 s2 (OApprove f t hraw)))).
-      { unfold op_clauses. cbv zeta. simpl fst. apply in_or_app. right. apply in_or_app. right. apply in_or_app. left. rewrite Ep. left. reflexivity. }
-      specialize (Res _ Hc). destruct (rotated lg t); discriminate.
-    + assert (Hc : In (cl "payout_without_release" (if rotated lg t then "decline_rotated" else "decline")) (fst (op_clauses (List.length bals) lg a s1 s2 (ODecline f t hraw)))).
-      { unfold op_clauses. cbv zeta. simpl fst. apply in_or_app. right. apply in_or_app. right. apply in_or_app. left. rewrite Ep. left. reflexivity. }
-      specialize (Res _ Hc). destruct (rotated lg t); discriminate.
+    + assert (Hc : In (cl "payout_without_release" (vote_kind lg t "approve")) (fst (op_clauses (List.length bals) lg a s1 s2 (OApprove f t hraw)))).
+      { unfold op_clauses. cbv zeta. simpl fst. apply in_or_app. right. apply in_or_app. right. apply in_or_app. right. apply in_or_app. left. rewrite Ep. left. reflexivity. }
+      specialize (Res _ Hc). destruct (rotated lg t) eqn:Hrt;
+        [destruct (vote_kind_tainted lg t "approve" Hrt) as [K|K]|pose proof (vote_kind_plain lg t "approve" Hrt) as K]; rewrite K in Res; discriminate.
+    + assert (Hc : In (cl "payout_without_release" (vote_kind lg t "decline")) (fst (op_clauses (List.length bals) lg a s1 s2 (ODecline f t hraw)))).
+      { unfold op_clauses. cbv zeta. simpl fst. apply in_or_app. right. apply in_or_app. right. apply in_or_app. right. apply in_or_app. left. rewrite Ep. left. reflexivity. }
+      specialize (Res _ Hc). destruct (rotated lg t) eqn:Hrt;
+        [destruct (vote_kind_tainted lg t "decline" Hrt) as [K|K]|pose proof (vote_kind_plain lg t "decline" Hrt) as K]; rewrite K in Res; discriminate.
     + unfold paid_without_release in Ep. destruct (released s1 s2 t (to_lower hraw)) eqn:Er; [discriminate|].
       destruct (pending s1 t (to_lower hraw)) as [tx|] eqn:Hpend.
-      * assert (Hc : In (cl "payout_without_release" (if rotated lg t then "confirm_rotated" else "confirm")) (fst (op_clauses (List.length bals) lg a s1 s2 (OConfirm f t hraw p ph)))).
+      * assert (Hc : In (cl "payout_without_release" (vote_kind lg t "confirm")) (fst (op_clauses (List.length bals) lg a s1 s2 (OConfirm f t hraw p ph)))).
         { unfold op_clauses. cbv zeta. rewrite Hpend. simpl fst. apply in_or_app. right. apply in_or_app. left.
           unfold paid_without_release. rewrite Er, Hpend, Ep. left. reflexivity. }
-        specialize (Res _ Hc). destruct (rotated lg t); discriminate.
+        specialize (Res _ Hc). destruct (rotated lg t) eqn:Hrt;
+          [destruct (vote_kind_tainted lg t "confirm" Hrt) as [K|K]|pose proof (vote_kind_plain lg t "confirm" Hrt) as K]; rewrite K in Res; discriminate.
       * (* no pending transfer: the model never accepts such a confirmation *)
         exact (confirm_needs_pending _ _ _ _ _ _ _ (acc_steps_model _ _ _ 0 (-1) _ _ _ _ _ _ _ ltac:(lia) Hs) Hpend).
   - intros [f ->]. destruct (released s1 s2 t (to_lower hraw)) eqn:Er; [exfalso|reflexivity].
-    assert (Hc : In (cl "release" (if rotated lg t then "decline_rotated" else "decline")) (fst (op_clauses (List.length bals) lg a s1 s2 (ODecline f t hraw)))).
-    { unfold op_clauses. cbv zeta. simpl fst. apply in_or_app. right. apply in_or_app. right. apply in_or_app. right. apply in_or_app. right. rewrite Er. left. reflexivity. }
-    specialize (Res _ Hc). destruct (rotated lg t); discriminate.
+    assert (Hc : In (cl "release" (vote_kind lg t "decline")) (fst (op_clauses (List.length bals) lg a s1 s2 (ODecline f t hraw)))).
+    { unfold op_clauses. cbv zeta. simpl fst. apply in_or_app. right. apply in_or_app. right. apply in_or_app. right. apply in_or_app. right. apply in_or_app. right. rewrite Er. left. reflexivity. }
+    specialize (Res _ Hc). destruct (rotated lg t) eqn:Hrt;
+      [destruct (vote_kind_tainted lg t "decline" Hrt) as [K|K]|pose proof (vote_kind_plain lg t "decline" Hrt) as K]; rewrite K in Res; discriminate.
 Qed.
 End Release.
